@@ -230,3 +230,69 @@ def run(out):
                 out.violation(r[0], detail={"tool": tool, "class": cls, "args": args}, replay={"driver": "c20", "args": args})
         os.unlink(inp)
         out.variants.append(vname)
+
+
+def key_length_sweep(out, vname="prod"):
+    """C10 through the command-line tools: every key length 1..(max+3) for every tool and block size, with -k before
+    and after -b: accepted iff in the documented range, and the output equals the library API (zero-padded key)."""
+    import itertools
+    tools, oracle = build_tools(vname)
+    wd = core.workdir()
+    env = core.san_env("asan")
+    rng = random.Random(out.seed * 31 + 10)
+    inp = os.path.join(wd, "c10-tools-in")
+    data = bytes(rng.getrandbits(8) for _ in range(100))
+    with open(inp, "wb") as f:
+        f.write(data)
+    jobs = []
+    for tool in ("skinny-ctr", "skinny-tweak", "skinny-ecb"):
+        for bb in (8, 16):
+            maxk = 2 * bb if tool == "skinny-tweak" else 3 * bb
+            for L in range(1, maxk + 4):
+                for order in (0, 1):
+                    jobs.append((tool, bb, L, order, bytes(rng.getrandbits(8) for _ in range(L))))
+
+    def one(job):
+        tool, bb, L, order, key = job
+        outp = os.path.join(wd, "c10-tools-%s-%d-%d-%d.out" % (tool, bb, L, order))
+        exp = outp + ".exp"
+        g = [["-b", str(bb * 8)], ["-k", key.hex()]]
+        if order:
+            g.reverse()
+        try:
+            p = subprocess.run([tools[tool]] + [a for x in g for a in x] + [inp, outp], stdout=subprocess.PIPE, stderr=subprocess.PIPE, env=env, timeout=60)
+        except subprocess.TimeoutExpired:
+            return ("inconclusive", job)
+        maxk = 2 * bb if tool == "skinny-tweak" else 3 * bb
+        legal = bb <= L <= maxk
+        made = os.path.exists(outp)
+        res = None
+        if legal:
+            mode = {"skinny-ctr": "ctr", "skinny-tweak": "tweak", "skinny-ecb": "ecb"}[tool]
+            subprocess.run([oracle, mode, str(bb), key.hex(), "-", "enc", inp, exp, "model"], stdout=subprocess.PIPE, stderr=subprocess.PIPE, env=env, timeout=60)
+            want = open(exp, "rb").read() if os.path.exists(exp) else None
+            got = open(outp, "rb").read() if made else None
+            if p.returncode != 0:
+                res = "legal-key-length-rejected-by-tool"
+            elif got != want:
+                res = "tool-output-differs-from-zero-padded-key-model"
+        else:
+            if p.returncode == 0:
+                res = "illegal-key-length-accepted-by-tool"
+            elif made:
+                res = "rejected-invocation-left-output-file"
+        for f in (outp, exp):
+            try: os.unlink(f)
+            except OSError: pass
+        return (res, job)
+    for res, job in core.pool().map(one, jobs):
+        tool, bb, L, order, key = job
+        out.evaluations += 1
+        out.distinct.add(hash(("c10tool", tool, bb, L, order)) & 0x7FFFFFFFFFFFFFFF)
+        out.counters["tool_key_length_invocations"] = out.counters.get("tool_key_length_invocations", 0) + 1
+        if res == "inconclusive":
+            out.inconclusive.append({"reason": "tool timed out", "job": [tool, bb, L, order]})
+        elif res:
+            out.violation("C10:%s:block%d:%s:%s" % (tool, bb * 8, "k-before-b" if order else "b-before-k", res),
+                          detail={"tool": tool, "block": bb * 8, "key_length": L, "order": "-k first" if order else "-b first"}, replay={"driver": "c20.key_length_sweep", "seed": out.seed})
+    os.unlink(inp)
